@@ -27,9 +27,17 @@ static uint64_t nsmall(int tier)
 }
 static int nthreads_axis(void) { return C08_THREADS > 1 ? 3 : 1; }
 
+/* repeats: every ordered pair of distinct letters of ACGTU (and of LKWDE) as a period-2 repeat, every period-3 repeat xxy,
+   at lengths 60 / 120 / 500 with 2 and 5 copies, under every type constant of the kind */
+static const char* RNUC = "ACGTU";
+static const char* RPRO = "LKWDE";
+#define NREP_PAT (20 + 20)      /* ordered pairs xy: period 2 (xy) and period 3 (xxy) */
+static const int RLEN[] = {60, 120, 500};
+static uint64_t nrepeat(void) { return (uint64_t)NREP_PAT * 3 * 2 * (4 + 3); }
+
 uint64_t vh_total(int tier)
 {
-        return (nsmall(tier) + (uint64_t)(9 * 7 * NSTRUCT)) * (uint64_t)nthreads_axis();
+        return (nsmall(tier) + (uint64_t)(9 * 7 * NSTRUCT) + nrepeat()) * (uint64_t)nthreads_axis();
 }
 
 struct icase { char* s; int copies; int type; int threads; int structured; int skip; };
@@ -57,6 +65,33 @@ static void decode(uint64_t id, int tier, struct icase* c)
                 id /= 4;
                 kx_nth_string(id, protein ? PROT_A : DNA_A, 1, maxlen(tier), buf);
                 c->s = strdup(buf);
+        }else if(id >= nsmall(tier) + (uint64_t)(9 * 7 * NSTRUCT)){
+                int ty, protein, pat, cp, len, i, x, y, per3;
+                id -= nsmall(tier) + (uint64_t)(9 * 7 * NSTRUCT);
+                ty = (int)(id % 7);
+                id /= 7;
+                protein = ty >= 4;
+                c->type = protein ? PROT_T[ty - 4] : DNA_T[ty];
+                cp = (int)(id % 2);
+                id /= 2;
+                len = RLEN[id % 3];
+                id /= 3;
+                pat = (int)id;
+                per3 = pat >= 20;
+                pat %= 20;
+                x = pat / 4;
+                y = pat % 4;
+                if(y >= x){
+                        y++;
+                }
+                c->copies = cp ? 5 : 2;
+                c->s = malloc((size_t)len + 1);
+                for(i = 0; i < len; i++){
+                        int second = per3 ? (i % 3 == 2) : (i % 2 == 1);
+                        c->s[i] = (protein ? RPRO : RNUC)[second ? y : x];
+                }
+                c->s[len] = 0;
+                c->structured = 2;
         }else{
                 int k, li, ci, len, i;
                 uint64_t st = 0x5151 + (uint64_t)vh_seed;
@@ -122,9 +157,10 @@ int vh_case(uint64_t id, int tier)
                 seq[i] = c.s;
                 len[i] = l;
         }
-        if(c.structured){
-                vh_case_timeout = 1500;
-                alarm(1500);
+        if(c.structured == 1){
+                /* clean runs of the largest cases take well under a minute; the limit leaves room for a loaded machine */
+                vh_case_timeout = tier ? 1500 : 300;
+                alarm((unsigned)vh_case_timeout);
         }
         rc = kalign(seq, len, c.copies, c.threads, c.type, -1.0f, -1.0f, -1.0f, &rows, &alen);
         if(rc != OK){
